@@ -24,6 +24,11 @@ The open choices (labelled `undecided:*` when one of them actually mattered) are
                       entry, or searches afresh and replaces it
   invalid-file-error-class   error class reported for a file that is not a typelib
   listed-versions     whether enumerate_versions lists versions of files that cannot be loaded
+
+Disagreements with the unchanged tree that the statement/documentation decide against the code are
+open entries of known_findings.json (witnesses in known/C17/): lazy-to-nonlazy-transition,
+load-typelib-replaces-loaded-namespace, versionless-require-accepts-content-version-mismatch,
+enumerate-versions-omits-loaded-version.  The model marks exactly those outcomes as `known:<key>`.
 """
 import itertools
 import json
@@ -57,7 +62,12 @@ ASSUMPTIONS = [
     'namespace names are dash-free single letters and never "GIRepository"; directory names contain no blanks/colons',
     'queries whose documented precondition (namespace loaded, dependency closure loaded) fails are not sent',
     'the GLib shim and the system GLib are trusted (substrate C); typelibs are cached per compiler build by GIR text',
+    'a request with G_IREPOSITORY_LOAD_FLAG_LAZY registers the namespace without loading its dependencies, and a lazily '
+    'loaded namespace counts as loaded for the queries (DESIGN appendix B rules 5 and 7; the flag is documented only as '
+    '"Lazily load the typelib")',
     'open choices listed in the module docstring are accepted either way (labels undecided:*)',
+    'histories are cut (label history-cut-at-known:*) where an open known finding would corrupt the process state: '
+    'before a lazy-to-non-lazy transition and after load_typelib replaced a loaded namespace',
 ]
 TECHNIQUE = ('model-based stateful testing: Hypothesis-generated world + call history, one fresh ASan/UBSan driver '
              'process per history, every reply compared with a non-deterministic reference model of DESIGN appendix B')
@@ -890,7 +900,7 @@ def _play2(case, ctx, b, scratch, root, W):
 
 # ------------------------------------------------------------------------------ plan / health
 def plan(tier):
-    n = 32 if tier == 'quick' else 5000
+    n = int(os.environ.get('C17_N', 0)) or (32 if tier == 'quick' else 5000)     # C17_N: ad-hoc exploration sizes
     return [{'n': n} for _ in range(16)]
 
 
